@@ -92,6 +92,39 @@ def propScaleA (sc : Case) (n : Nat) (colptr rowind : Array Nat) (eq : Equed) (R
       if ¬ closeTo aout[p]! e (3 * eps) then return some s!"equed = {repr eq}: entry ({i},{j}) is not R*A*C up to rounding"
   return none
 
+/-- the documented threshold rule, on exact ratios of the matrix handed in: with Equil = YES a factoring call
+(any Fact except FACTORED) scales the rows iff min/max of the row maxima is below 0.1, the columns iff min/max of
+the column maxima of the row-scaled matrix is below 0.1 (entries measured as |re|+|im|).  Only clear cases are
+decided (ratio off the threshold by more than one part in a million, no empty row or column, magnitudes far from
+the ends of the exponent range - the histories use moderate values). -/
+def propEquilRule (sc : Case) (n : Nat) (colptr rowind : Array Nat) (eq : Equed) : Option String := Id.run do
+  let some ain := decQ? sc "Ain" | return none
+  let mag (z : Q) : Rat := rabs z.re + rabs z.im
+  let mut rmax : Array Rat := Array.replicate n 0
+  for j in List.range n do
+    for p in List.range' colptr[j]! (colptr[j+1]! - colptr[j]!) do
+      let i := rowind[p]!; let m := mag ain[p]!
+      if m > rmax.getD i 0 then rmax := rmax.setIfInBounds i m
+  if rmax.any (· == 0) then return none
+  let big : Rat := (2 : Rat) ^ 60
+  if rmax.any (fun x => x > big ∨ x < 1 / big) then return none
+  let hi := rmax.foldl max 0; let lo := rmax.foldl min hi
+  let rowcnd := lo / hi
+  let mut cmax : Array Rat := Array.replicate n 0
+  for j in List.range n do
+    for p in List.range' colptr[j]! (colptr[j+1]! - colptr[j]!) do
+      let i := rowind[p]!; let m := mag ain[p]! / rmax.getD i 1
+      if m > cmax.getD j 0 then cmax := cmax.setIfInBounds j m
+  if cmax.any (· == 0) then return none
+  let chi := cmax.foldl max 0; let clo := cmax.foldl min chi
+  let colcnd := clo / chi
+  let thr : Rat := 1 / 10; let mrg : Rat := 1 / 1000000
+  if rowcnd < thr * (1 - mrg) ∧ ¬ eq.row then return some s!"equil: Equil = YES and min/max of the row maxima is {(rowcnd * 1000).floor}/1000 < 0.1, but equed = {repr eq}: the rows were not scaled"
+  if rowcnd > thr * (1 + mrg) ∧ eq.row then return some s!"equil: min/max of the row maxima is {(rowcnd * 1000).floor}/1000 >= 0.1, but equed = {repr eq}: the rows were scaled"
+  if colcnd < thr * (1 - mrg) ∧ ¬ eq.col then return some s!"equil: Equil = YES and min/max of the column maxima of the row-scaled matrix is {(colcnd * 1000).floor}/1000 < 0.1, but equed = {repr eq}: the columns were not scaled"
+  if colcnd > thr * (1 + mrg) ∧ eq.col then return some s!"equil: min/max of the column maxima of the row-scaled matrix is {(colcnd * 1000).floor}/1000 >= 0.1, but equed = {repr eq}: the columns were scaled"
+  return none
+
 /-- scaling of the right-hand side (dgssvx.c:599-611) and untouched padding rows -/
 def propScaleB (sc : Case) (n : Nat) (eq : Equed) (R C : Array Rat) (eps : Rat) : Option String := Id.run do
   let nrhs := sc.pNat "nrhs"; let ldb := sc.pNat "ldb"
@@ -334,9 +367,19 @@ def handleAll (c : Case) : Res := Id.run do
           | some msg => return Res.propFalse s!"step {k} ({fact}): storage: {nm}: {msg}" tg
           | none => pure ()
         | none => pure ()
+      -- storage, Prop: mem_usage describes the factors this call returned (QuerySpace of the returned L and U)
+      if (info == 0 ∨ info == n + 1) ∧ (sc.raw "memusage").size == 2 ∧ (sc.int "L.xlusup").size == n + 1 then
+        let q := Slu.Mem.querySpace memW ((c.int "mem.ienv").getD 1 0) n ((sc.int "L.xlusup").getD n 0) ((sc.int "L.xlsub").getD n 0) ((sc.int "U.colptr").getD n 0)
+        let got := sc.raw "memusage"
+        if got.getD 0 0 ≠ q.1.toUInt64 ∨ got.getD 1 0 ≠ q.2.toUInt64 then
+          return Res.propFalse s!"step {k} ({fact}): storage: mem_usage (for_lu, total_needed) = bits {got.getD 0 0}, {got.getD 1 0} but the returned factors give {q.1}, {q.2}" tg
       let some eq := equedOf (sc.p "equed") | return Res.propFalse s!"step {k}: equed = '{sc.p "equed"}'" tg
       if sc.p "equil" == "0" ∧ eq ≠ .N then return Res.propFalse s!"step {k}: Equil = NO but equed = {sc.p "equed"}" tg
       if eq ≠ .N then nEquil := nEquil + 1
+      if sc.p "equil" == "1" then
+        match propEquilRule sc n colptr rowind eq with
+        | some msg => return Res.propFalse s!"step {k} ({fact}): {msg}" tg
+        | none => pure ()
       let some Rv := ratsOf c.isDouble (sc.raw "R") | return Res.propFalse s!"step {k}: R non-finite" tg
       let some Cv := ratsOf c.isDouble (sc.raw "C") | return Res.propFalse s!"step {k}: C non-finite" tg
       if eq.row ∧ ¬ (Rv.all (· > 0)) then return Res.propFalse s!"step {k}: a row scale factor is not positive" tg
